@@ -5,25 +5,6 @@ use crate::c11::*;
 
 /// Test generated for harness `c11::c11_plain_nan_argmax_n2` 
 ///
-/// Check for `assertion`: ""float argmax never points at a NaN while a non-NaN element exists (first greatest non-NaN element)""
-
-#[test]
-fn kani_concrete_playback_c11_plain_nan_argmax_n2_13459828990977464839() {
-    let concrete_vals: Vec<Vec<u8>> = vec![
-        // 2
-        vec![2, 0, 0, 0],
-        // 1
-        vec![1],
-        // 1
-        vec![1, 0, 0, 0],
-        // 0
-        vec![0],
-    ];
-    kani::concrete_playback_run(concrete_vals, c11_plain_nan_argmax_n2);
-}
-
-/// Test generated for harness `c11::c11_plain_nan_argmax_n2` 
-///
 /// Check for `cover`: "NaN next to a number"
 
 #[test]
@@ -37,6 +18,25 @@ fn kani_concrete_playback_c11_plain_nan_argmax_n2_15857753776414359448() {
         vec![255, 255, 255, 255],
         // 1
         vec![1],
+    ];
+    kani::concrete_playback_run(concrete_vals, c11_plain_nan_argmax_n2);
+}
+
+/// Test generated for harness `c11::c11_plain_nan_argmax_n2` 
+///
+/// Check for `assertion`: ""float argmax never points at a NaN while a non-NaN element exists (first greatest non-NaN element)""
+
+#[test]
+fn kani_concrete_playback_c11_plain_nan_argmax_n2_13459828990977464839() {
+    let concrete_vals: Vec<Vec<u8>> = vec![
+        // 2
+        vec![2, 0, 0, 0],
+        // 1
+        vec![1],
+        // 1
+        vec![1, 0, 0, 0],
+        // 0
+        vec![0],
     ];
     kani::concrete_playback_run(concrete_vals, c11_plain_nan_argmax_n2);
 }
